@@ -21,6 +21,7 @@ func init() {
 			"(S3) inserting an equal key replaces the value: leafNode.insert reaches insertInSameLn only under equality of the two keys, and every non-nil node insertInSameLn returns passed the store ln.Value = n.Value. " +
 			"(S4) inserting a different key keeps both pairs, each with its own key suffix, value and slot: in insertInNewBn the child stored at children[X.Key[m]] is newLeafNode(X.Key[m+1:], X.Value) for the same X, once for the old leaf and once for the new one. " +
 			"(S5) leaf enumeration emits the leaf's own pair: leafNode.getAllLeavesOnChannel sends NewKeyValStorage(hexToKeyBytes(append(path, ln.Key...)), ln.Value). " +
+			"(S6) enumeration walks a private copy: the trie whose root GetAllLeavesOnChannel walks in its goroutine (outside the lock, dropping child pointers behind itself) is the result of a call that can never hand back its own receiver - never the live trie. " +
 			"Not decided (value-level): keyBytesToHex/hexToKeyBytes as inverses, prefix and position arithmetic in branch and extension nodes, node reduction after deletes, histories.",
 		Run: runC01,
 	})
@@ -300,6 +301,137 @@ func runC01(c *core.Ctx) {
 		c.Check(n == 2 && len(owners) == 2, "C01/different-key-insert-keeps-both", "leafNode.insertInNewBn/both", fn.Pos(),
 			"one child for the old leaf and one for the inserted leaf",
 			fmt.Sprintf("leafNode.insertInNewBn fills %d slot(s) from %d distinct leaves: the old pair or the new pair is lost", n, len(owners)))
+	}
+	// S6: enumeration walks a private copy. The walk runs in a goroutine after the lock is released
+	// and drops child pointers behind itself; on the live trie it would show uncommitted writes and
+	// make the trie fall back to stale hashes. The trie whose root is walked is the result of a call
+	// that never hands back its own receiver.
+	if fn := anchorM(c, pkg, "patriciaMerkleTrie", "GetAllLeavesOnChannel"); fn != nil {
+		var returnsReceiver func(g *ssa.Function, d int) bool
+		returnsReceiver = func(g *ssa.Function, d int) bool {
+			if d > 4 || len(g.Blocks) == 0 || g.Signature.Recv() == nil {
+				return false
+			}
+			var isRecv func(v ssa.Value, seen map[ssa.Value]bool) bool
+			isRecv = func(v ssa.Value, seen map[ssa.Value]bool) bool {
+				if v == nil || seen[v] {
+					return false
+				}
+				seen[v] = true
+				switch x := v.(type) {
+				case *ssa.Parameter:
+					return x == g.Params[0]
+				case *ssa.Phi:
+					for _, e := range x.Edges {
+						if isRecv(e, seen) {
+							return true
+						}
+					}
+				case *ssa.Extract:
+					return isRecv(x.Tuple, seen)
+				case *ssa.Call:
+					if h := x.Call.StaticCallee(); h != nil && len(x.Call.Args) > 0 && isRecv(x.Call.Args[0], seen) {
+						return returnsReceiver(h, d+1)
+					}
+				}
+				return false
+			}
+			for _, r := range core.Returns(g) {
+				if isRecv(core.RetOperand(r, 0), map[ssa.Value]bool{}) {
+					return true
+				}
+			}
+			return false
+		}
+		n := 0
+		for _, f := range append([]*ssa.Function{fn}, fn.AnonFuncs...) {
+			core.Instrs(f, func(in ssa.Instruction) {
+				cc := core.CallOf(in)
+				if cc == nil || !cc.IsInvoke() || cc.Method.Name() != "getAllLeavesOnChannel" {
+					return
+				}
+				n++
+				// the trie whose root is walked
+				base, fld := core.FieldLoad(cc.Value)
+				good, why := false, "the walked node is not the root of a trie value"
+				if fld != nil && fld.Name() == "root" {
+					t := base
+					binding := func(fv *ssa.FreeVar) ssa.Value {
+						for i, x := range f.FreeVars {
+							if x != fv {
+								continue
+							}
+							for _, blk := range fn.Blocks {
+								for _, y := range blk.Instrs {
+									if mc, isMC := y.(*ssa.MakeClosure); isMC && mc.Fn == ssa.Value(f) {
+										return mc.Bindings[i]
+									}
+								}
+							}
+						}
+						return nil
+					}
+					cellValue := func(cell ssa.Value) ssa.Value { // the single store into a local cell
+						al, isAl := cell.(*ssa.Alloc)
+						if !isAl || al.Referrers() == nil {
+							return nil
+						}
+						var val ssa.Value
+						k := 0
+						for _, r := range *al.Referrers() {
+							if st, isSt := r.(*ssa.Store); isSt && st.Addr == ssa.Value(al) {
+								val = st.Val
+								k++
+							}
+						}
+						if k != 1 {
+							return nil
+						}
+						return val
+					}
+					for step := 0; step < 4; step++ {
+						if fv, isFV := t.(*ssa.FreeVar); isFV {
+							if bnd := binding(fv); bnd != nil {
+								t = bnd
+								continue
+							}
+						}
+						if u, isU := t.(*ssa.UnOp); isU {
+							cell := u.X
+							if fv, isFV := cell.(*ssa.FreeVar); isFV {
+								cell = binding(fv)
+							}
+							if cell != nil {
+								if v := cellValue(cell); v != nil {
+									t = v
+									continue
+								}
+							}
+						}
+						break
+					}
+					why = "the trie walked is " + core.ExprKey(t) + ", not the result of a call"
+					if ex, isEx := t.(*ssa.Extract); isEx {
+						if call, isCall := ex.Tuple.(*ssa.Call); isCall && call.Call.StaticCallee() != nil {
+							if returnsReceiver(call.Call.StaticCallee(), 0) {
+								why = call.Call.StaticCallee().Name() + " can hand back the live trie itself"
+							} else {
+								good = true
+							}
+						}
+					}
+					if t == ssa.Value(fn.Params[0]) {
+						why = "the live trie itself is walked"
+					}
+				}
+				c.Check(good, "C01/enumeration-walks-a-private-copy", fmt.Sprintf("patriciaMerkleTrie.GetAllLeavesOnChannel/walk#%d", n), in.Pos(),
+					"the trie walked comes from a call that never returns its receiver",
+					"GetAllLeavesOnChannel: "+why+": the walk runs outside the lock and drops child pointers behind itself, so enumerating a committed root shows uncommitted writes, and the live trie falls back to stale hashes (a deleted key comes back, a new key vanishes)")
+			})
+		}
+		if n == 0 {
+			c.Undecided("C01/enumeration-walks-a-private-copy", "patriciaMerkleTrie.GetAllLeavesOnChannel", fn.Pos(), "no walk found")
+		}
 	}
 	// S5
 	if fn := anchorM(c, pkg, "leafNode", "getAllLeavesOnChannel"); fn != nil {
